@@ -107,6 +107,8 @@ fn main() {
         "C13" => engines::e1::run_c13(&a, &shared),
         "C04" => engines::e4::run_c04(&a, &shared),
         "C10" => engines::c10::run_c10(&a, &shared),
+        "C15" => engines::c15::run_c15(&a, &shared),
+        "C16" => engines::c16::run_c16(&a, &shared),
         "C20" => engines::c20::run_c20(&a, &shared),
         "C08" => engines::e5::run_testers(&a, &shared, "C08"),
         "C14" => engines::e5::run_testers(&a, &shared, "C14"),
